@@ -422,6 +422,9 @@ func c16Run(b *core.B) {
 		}
 		env := &c16Env{}
 		res := render(b, full, c16Ctx(env))
+		if i%5 == 0 {
+			renderAgain(b, full, func() *plush.Context { return c16Ctx(&c16Env{}) }, res, "user-function")
+		}
 		if !ok || !returned {
 			// the chain compares values of different types somewhere: not judged
 			b.Abstain()
